@@ -33,6 +33,14 @@ type decTr struct {
 	srcs map[string]string
 	// multi: the variables assigned more than once in the function (only those need a source)
 	multi map[string]bool
+	// defs: Boolean locals defined once (`x := a && b`): a condition that is such a local is read through its definition
+	defs map[string]ast.Expr
+	// closures: function literals bound to a local (`h := func(...) {...}`) with the outer variables they assign; a call
+	// that is handed such a closure may change those variables
+	closures map[string][]string
+	// initVars/initText: the variables defined by the init statement of the `if` being translated
+	initVars map[string]bool
+	initText string
 	// quiet: only returns, warnings and other calls matter; assignments are no effects and an `if` whose body
 	// neither returns nor calls anything is skipped (used for long functions whose bookkeeping is modelled elsewhere)
 	quiet bool
@@ -99,7 +107,69 @@ func (t *decTr) cond(e ast.Expr) string {
 			return "(" + t.cond(x.X) + " || " + t.cond(x.Y) + ")"
 		}
 	}
-	return t.hole(exprKey2(e) + t.srcSuffix(e))
+	if id, ok := e.(*ast.Ident); ok {
+		if d, ok := t.defs[id.Name]; ok && !t.multi[id.Name] {
+			return t.cond(d)
+		}
+	}
+	key := exprKey2(e)
+	if t.initText != "" && mentions(e, t.initVars) {
+		key = t.initText + "; " + key
+	}
+	return t.hole(key + t.srcSuffix(e))
+}
+
+func mentions(e ast.Node, vars map[string]bool) bool {
+	found := false
+	ast.Inspect(e, func(n ast.Node) bool {
+		if id, ok := n.(*ast.Ident); ok && vars[id.Name] {
+			found = true
+		}
+		return !found
+	})
+	return found
+}
+
+// scanLocals records the Boolean locals and the closures of the statements
+func (t *decTr) scanLocals(stmts []ast.Stmt) {
+	t.defs, t.closures = map[string]ast.Expr{}, map[string][]string{}
+	for _, s := range stmts {
+		ast.Inspect(s, func(n ast.Node) bool {
+			as, ok := n.(*ast.AssignStmt)
+			if !ok || as.Tok != token.DEFINE || len(as.Lhs) != 1 || len(as.Rhs) != 1 {
+				return true
+			}
+			id, ok := as.Lhs[0].(*ast.Ident)
+			if !ok {
+				return true
+			}
+			switch r := as.Rhs[0].(type) {
+			case *ast.BinaryExpr:
+				if r.Op == token.LAND || r.Op == token.LOR {
+					t.defs[id.Name] = r
+				}
+			case *ast.UnaryExpr:
+				if r.Op == token.NOT {
+					t.defs[id.Name] = r
+				}
+			case *ast.FuncLit:
+				seen := map[string]bool{}
+				ast.Inspect(r.Body, func(m ast.Node) bool {
+					if a2, ok := m.(*ast.AssignStmt); ok && a2.Tok == token.ASSIGN {
+						for _, l := range a2.Lhs {
+							if lid, ok := l.(*ast.Ident); ok && lid.Name != "_" && !seen[lid.Name] {
+								seen[lid.Name] = true
+								t.closures[id.Name] = append(t.closures[id.Name], lid.Name)
+							}
+						}
+					}
+					return true
+				})
+				return false
+			}
+			return true
+		})
+	}
 }
 
 // srcSuffix names, for every variable of the expression that was assigned on the current path, where its value
@@ -150,6 +220,19 @@ func multiAssigned(stmts []ast.Stmt) map[string]bool {
 			out[k] = true
 		}
 	}
+	return out
+}
+
+func withSrcName(srcs map[string]string, name, src string) map[string]string {
+	out := map[string]string{}
+	for k, v := range srcs {
+		out[k] = v
+	}
+	s := src
+	for strings.TrimRight(out[name], "'") == src && len(out[name]) >= len(s) {
+		s += "'"
+	}
+	out[name] = s
 	return out
 }
 
@@ -311,7 +394,18 @@ func (t *decTr) decE(stmts []ast.Stmt, effects []string, end string, srcs map[st
 		c := ""
 		t.srcs = srcs
 		if x.Init != nil {
-			c = t.hole(exprKey2(x.Init) + "; " + exprKey2(x.Cond) + t.srcSuffix(x.Init))
+			// the init statement defines variables for this `if` only: its text is part of every condition leaf that
+			// mentions one of them
+			t.initVars, t.initText = map[string]bool{}, exprKey2(x.Init)
+			if as, ok := x.Init.(*ast.AssignStmt); ok {
+				for _, l := range as.Lhs {
+					if id, ok := l.(*ast.Ident); ok && id.Name != "_" {
+						t.initVars[id.Name] = true
+					}
+				}
+			}
+			c = t.cond(x.Cond)
+			t.initVars, t.initText = nil, ""
 		} else {
 			c = t.cond(x.Cond)
 		}
@@ -376,6 +470,18 @@ func (t *decTr) decE(stmts []ast.Stmt, effects []string, end string, srcs map[st
 			srcs = withSrc(srcs, as)
 		}
 		if es, ok := stmts[0].(*ast.ExprStmt); ok {
+			if c, ok := es.X.(*ast.CallExpr); ok {
+				for _, a := range c.Args {
+					if id, ok := a.(*ast.Ident); ok {
+						for _, v := range t.closures[id.Name] {
+							// the callee runs the closure: what it assigns comes from this call now
+							srcs = withSrcName(srcs, v, exprKey2(c.Fun)+"()")
+						}
+					}
+				}
+			}
+		}
+		if es, ok := stmts[0].(*ast.ExprStmt); ok {
 			if c, ok := es.X.(*ast.CallExpr); ok && exprKey2(c.Fun) == "os.Exit" {
 				// the process ends here
 				return leanStr(shortLabel(strings.Join(append(append([]string{}, effects...), "os.Exit()"), "; ")))
@@ -434,6 +540,9 @@ var decJobs = []decJob{
 	{"pkg/option/ident_matcher.go", "IdentMatcher", "Match", "identMatch", "", false, ""},
 	{"pkg/builder/assignment.go", "assignmentBuilder", "addressed", "addressed", "", false, ""},
 	{"pkg/builder/assignment.go", "assignmentBuilder", "isStructFieldAccessible", "isStructFieldAccessible", "", false, ""},
+	{"pkg/builder/assignment.go", "assignmentBuilder", "dispatch", "dispatch", "", false, ""},
+	{"pkg/builder/assignment.go", "assignmentBuilder", "structFieldAndStructGettersAndFields", "candidateHandler", "", false, "=handler"},
+	{"pkg/builder/assignment.go", "assignmentBuilder", "structFieldAndStructGettersAndFields", "fieldDefault", "", false, ""},
 }
 
 func genDecisions(repo string) string {
@@ -460,6 +569,7 @@ func genDecision(repo string, j decJob) string {
 	f := parse(repo, j.file)
 	fd := findFunc(f, j.recv, j.fn)
 	stmts := fd.Body.List
+	litNamed := false
 	if j.lit != "" {
 		stmts = nil
 		for _, st := range fd.Body.List {
@@ -468,6 +578,36 @@ func genDecision(repo string, j decJob) string {
 					if c, ok := as.Rhs[0].(*ast.CallExpr); ok {
 						if fl, ok := c.Fun.(*ast.FuncLit); ok {
 							stmts = fl.Body.List
+						}
+					}
+				}
+			}
+		}
+		if strings.HasPrefix(j.lit, "@") {
+			// the function literal handed to the call of that function
+			ast.Inspect(fd.Body, func(n ast.Node) bool {
+				c, ok := n.(*ast.CallExpr)
+				if !ok || stmts != nil {
+					return stmts == nil
+				}
+				if strings.HasSuffix(exprKey2(c.Fun), strings.TrimPrefix(j.lit, "@")) {
+					for _, a := range c.Args {
+						if fl, ok := a.(*ast.FuncLit); ok {
+							stmts = fl.Body.List
+							litNamed = fl.Type.Results != nil && len(fl.Type.Results.List) > 0 && len(fl.Type.Results.List[0].Names) > 0
+						}
+					}
+				}
+				return true
+			})
+		} else if strings.HasPrefix(j.lit, "=") {
+			// the function literal bound to that local
+			for _, st := range fd.Body.List {
+				if as, ok := st.(*ast.AssignStmt); ok && len(as.Lhs) == 1 && len(as.Rhs) == 1 {
+					if id, ok := as.Lhs[0].(*ast.Ident); ok && id.Name == strings.TrimPrefix(j.lit, "=") {
+						if fl, ok := as.Rhs[0].(*ast.FuncLit); ok {
+							stmts = fl.Body.List
+							litNamed = fl.Type.Results != nil && len(fl.Type.Results.List) > 0 && len(fl.Type.Results.List[0].Names) > 0
 						}
 					}
 				}
@@ -490,11 +630,15 @@ func genDecision(repo string, j decJob) string {
 			failf(fd, "stop statement %q not found in %s", j.stop, j.fn)
 		}
 	}
-	if fd.Type.Results != nil && len(fd.Type.Results.List) > 0 && len(fd.Type.Results.List[0].Names) > 0 && end == "" {
+	if fd.Type.Results != nil && len(fd.Type.Results.List) > 0 && len(fd.Type.Results.List[0].Names) > 0 && end == "" && j.lit == "" {
 		end = "return" // named results: falling off the end is impossible in Go, but a bare return may be last
+	}
+	if litNamed && end == "" {
+		end = "return"
 	}
 	longLabels, longLabelOrder = map[string]string{}, nil
 	t := &decTr{seen: map[string]bool{}, quiet: j.quiet, multi: multiAssigned(stmts)}
+	t.scanLocals(stmts)
 	body := t.dec(stmts, nil, end)
 	var params []string
 	sb.WriteString("/-- `" + j.recv + "." + j.fn + "`; conditions:\n")
